@@ -48,6 +48,11 @@ INVERSE_MUT = {"add_second_level_htlc_output": "remove_second_level_htlc_output"
 CLAIM["text"] += (" (R14.13) restart clause, where the build has a persistence layer: every persisted field of channel entry, node "
                   "state, tracker and monitors is serialised and restored into the same slot (same obligations as C11 R11.2).")
 
+CLAIM["text"] += (" (R14.14) a close that pays the node nothing has no `our output`: in the ClosingOutpoints matchers the absence of "
+                  "our_output is never turned into an output index by a default (map_or / unwrap_or on the index), so a spend of "
+                  "output 0 of such a close is not taken for a spend of ours (the change it would emit unwraps None and aborts "
+                  "block processing).")
+
 def run(ctx):
     ctx.explanation = CLAIM["text"]
     ctx.not_decided = "view equality with a fresh replay for all histories; general panic-freedom"
@@ -69,6 +74,7 @@ def run(ctx):
     r1410(ctx)
     r1411(ctx)
     r1412(ctx)
+    r1414(ctx)
     r_restore(ctx)
 
 
@@ -702,3 +708,41 @@ def r1412(ctx):
 def r_restore(ctx):
     from rules import C11 as _c11
     _c11.shared_restore(ctx, "R14.13", "the monitors' State (heights, closing outpoints, spent flags, seen set) is what a restarted signer continues from.")
+
+
+def r1414(ctx):
+    ctx.rule("R14.14", "ClosingOutpoints: `our_output == None` never aliases an output index: no integer default (map_or / unwrap_or "
+                       "/ unwrap_or_default with an integer result) is applied to our_output or its index")
+    from engine.cfg import render, subexprs
+    p = ctx.prog
+    INT = ("u8", "u16", "u32", "u64", "usize", "i32", "i64")
+    n = 0
+    for b in sorted(p.bodies.values(), key=lambda x: x.name):
+        if b.d.krate != "lightning_signer" or "monitor::ClosingOutpoints" not in b.name:
+            continue
+        fv = fnview(ctx, b, policy=False)
+        reads = any(x[0] == "field" and x[3] == "our_output" for bi in fv.live_blocks() for st in b.stmts(bi) if st.kind == "a" and st.rv.ops
+                    for o in st.rv.ops for x in subexprs(fv.expr(o)))
+        for bi, c in b.calls():
+            nm = c.callee.name if c.callee else ""
+            last = nm.rsplit("::", 1)[-1]
+            if not c.args:
+                continue
+            e = fv.expr(c.args[0])
+            if not any(x[0] == "field" and x[3] == "our_output" for x in subexprs(e)):
+                continue
+            n += 1
+            if last in ("map_or", "unwrap_or", "unwrap_or_default", "unwrap_or_else", "map_or_else") and c.dest.is_local():
+                ty = b.ty(c.dest.local)
+                ctx.ob("R14.14", ty not in INT, f"{R_owner(p, b)}/our_output-default-index",
+                       f"`{b.name}` replaces a missing our_output by a default of type {ty} (`{last}`): for a close without an output of "
+                       "ours, the output with that index is taken for ours, and the `OurOutputSpent` change it triggers unwraps None - "
+                       "connecting or disconnecting the block that spends it aborts", where=f"{b.file}:{c.line}",
+                       sample="absence of our_output stays an Option")
+    ctx.floor("R14.14", "uses of ClosingOutpoints.our_output in its own methods", n, 2)
+    ctx.ob("R14.14", True, "ClosingOutpoints/our_output-optional", "", where="vls-core/src/monitor.rs", sample=f"{n} uses, none with an integer default")
+
+
+def R_owner(p, b):
+    from engine import rulelib as R
+    return R.owner_name(p, b)
